@@ -1,7 +1,7 @@
 #!/bin/sh
-# tools/run_all.sh [tier] [seed]: run every registered check (4 in parallel) and print one line each; exit 1 if any did not hold
+# tools/run_all.sh [tier] [seed]: run every registered check and the extended-coverage checks (X..) (4 in parallel) and print one line each; exit 1 if any did not hold
 tier=${1:-quick}; seed=${2:-0}
 cd /verif
 mkdir -p /tmp/kv_runall
-ls kv/c[0-9][0-9].py | sed 's/.*c\([0-9][0-9]\).py/C\1/' | xargs -P 4 -I{} sh -c "VERIF_SEED=$seed ./check {} --tier $tier > /tmp/kv_runall/{}.log 2>&1; echo \"{} exit=\$? \$(tail -1 /tmp/kv_runall/{}.log | cut -c1-120)\"" | sort | tee /tmp/kv_runall/summary.txt
+ls kv/[cx][0-9][0-9].py | sed "s/.*\([cx]\)\([0-9][0-9]\).py/\1\2/" | tr cx CX | xargs -P 4 -I{} sh -c "VERIF_SEED=$seed ./check {} --tier $tier > /tmp/kv_runall/{}.log 2>&1; echo \"{} exit=\$? \$(tail -1 /tmp/kv_runall/{}.log | cut -c1-120)\"" | sort | tee /tmp/kv_runall/summary.txt
 ! grep -v "exit=0" /tmp/kv_runall/summary.txt > /dev/null
